@@ -313,6 +313,91 @@ def flags_of(rec):
     return f
 
 
+def instance_table(maxk):
+    cfg = ("SPECIFICATION Spec\nCONSTANTS\n  FragNames = %s\n  MaxK = %d\nINVARIANT EmitInv\nCHECK_DEADLOCK FALSE\n" % (ALLF, maxk))
+    res = run_tlc("DumpInst", cfg, workers=4, timeout=600, tag="dumpinst")
+    if res.error:
+        raise MachineryError("DumpInst failed:\n" + res.error)
+    inst, cells = {}, {}
+    for t, rest in res.printed:
+        v = tla_string_to_json(rest)
+        if t == "INST":
+            inst[(v["f"], v["k"])] = v
+        elif t == "CELL":
+            cells[v["name"]] = v["cell"]
+    return inst, cells
+
+
+def random_walks(nwalks, depth, maxatoms, sd):
+    """Long random histories on larger structures (C09 "random longer sequences"): not chosen by TLC, but built from
+    the specification's own fragment instances; every transition is judged by the same trace specification."""
+    inst, cells = instance_table(depth + 1)
+    frags = sorted(set(f for f, _ in inst))
+    R = Rendering("identity", 1.0)
+    walks = []
+    for w in range(nwalks):
+        rnd = random.Random(sd * 7919 + w)
+        f0 = rnd.choice([f for f in frags if f != "E"])
+        flav = inst[(f0, 0)]["flav"]
+        cname = rnd.choice(["none", "ortho", "tri", "trineg"])
+        beh = [{"op": "Construct", "k": 0, "frag": f0, "other": dict(inst[(f0, 0)]["K"], cell=cells[cname])}]
+        cache = {}
+        held = {}
+        while len(beh) <= depth:
+            steps = execute(beh, R, 0, random.Random(0), cache, probe=False)
+            if steps[-1]["exc"] != "none" or steps[-1]["post"]["wf"] != "ok":
+                break
+            K = steps[-1]["post"]
+            n = len(K["q"])
+            keys = [[K["q"][i], K["pos"][i]] for i in range(n)]
+            k = len(beh)
+            ops = ["Extend", "Extend", "ExtendTypes"]
+            if n >= 2:
+                ops += ["Delete", "Delete", "Pop"]
+            if n >= 1:
+                ops += ["Copy"]
+            if cname != "none" and 0 < n <= maxatoms // 2:
+                ops += ["Replicate"]
+            if 0 < n <= maxatoms // 2:
+                ops += ["ExtendShifted"]
+            op = rnd.choice(ops)
+            if op in ("Extend", "ExtendTypes"):
+                cands = [f for f in frags if inst[(f, 0)]["flav"] in ("n", flav) or flav == "n"]
+                f = rnd.choice(cands)
+                F = inst[(f, k)]["K"]
+                if op == "ExtendTypes":
+                    if f == "E" or f in held:
+                        continue
+                    held[f] = k
+                    beh.append({"op": "ExtendTypes", "k": k, "frag": f, "other": F})
+                else:
+                    if n + len(F["q"]) > maxatoms:
+                        continue
+                    m = rnd.choice([0, 0, 1, 2]) if n else 0
+                    js = rnd.sample(range(len(F["q"])), min(m, len(F["q"])))
+                    tg = rnd.sample(keys, len(js)) if len(js) <= n else []
+                    mp = [[j, t] for j, t in zip(js, tg)]
+                    mode = "held" if f in held and rnd.random() < 0.5 else "auto"
+                    beh.append({"op": "Extend", "k": k, "frag": f, "mode": mode, "map": mp, "other": F})
+                if flav == "n":
+                    flav = inst[(f, 0)]["flav"]
+            elif op == "Delete":
+                S = rnd.sample(keys, rnd.randint(1, min(4, n - 1)))
+                beh.append({"op": "Delete", "keys": S})
+            elif op == "Pop":
+                beh.append({"op": "Pop", "i": rnd.choice([-1, 0, -2, n - 1])})
+            elif op == "Copy":
+                beh.append({"op": "Copy"})
+            elif op == "Replicate":
+                beh.append({"op": "Replicate", "dims": rnd.choice([[2, 1, 1], [1, 2, 1], [1, 1, 2], [1, 1, 1]])})
+            elif op == "ExtendShifted":
+                v = rnd.choice([[0, 0, 50], [40, 0, 0], [0, 60, 0]])
+                v = [x + 7 * k for x in v]
+                beh.append({"op": "ExtendShifted", "v": v})
+        walks.append(beh)
+    return walks
+
+
 def gen_behaviours(consts, emit_ops, timeout):
     res = run_tlc("MC_AtomsAbs", cfg_text(consts, True, emit_ops, False), workers=1, timeout=timeout, tag="gen")
     if res.error:
@@ -359,6 +444,11 @@ def run(prop, tier, replay=None):
                         continue
                     cases.append((b, R, v))
         out.exhaustive = True
+        if prop == "C09":
+            walks = random_walks(40 if tier == "quick" else 600, 14 if tier == "quick" else 24, 40, sd)
+            out.notes["random_walks"] = len(walks)
+            out.notes["random_walk_steps"] = sum(len(w) for w in walks)
+            cases += [(w, Rendering("identity", 1.0), 0) for w in walks]
     # 3. execute (in parallel: one task per rendering x initial structure, so prefixes are shared inside a task)
     trans, where, paths = {}, {}, []
     groups = {}
